@@ -101,6 +101,10 @@ param2ast = Contract(
         _p2a_case("str,nodefault", ("lit", "str"), "<absent>"),
         _p2a_case("untyped,int", "<absent>", "int"),
         _p2a_case("untyped,nodefault", "<absent>", "<absent>"),
+        # types that need quoting without being bare str (needs_quoting by contract: Optional[str] is one of its literal branches)
+        _p2a_case("Optional[str],str", ("lit", "Optional[str]"), "str", assume=["param[1]['default'] != %r" % NONESTR]),
+        _p2a_case("Optional[str],int", ("lit", "Optional[str]"), "int"),
+        _p2a_case("Optional[str],bool", ("lit", "Optional[str]"), "bool"),
     ],
     use_contract_for=["doctrans.defaults_utils:needs_quoting"],
     ensures=[
@@ -116,6 +120,10 @@ param2ast = Contract(
         Clause("PA-val-str", "result.value.value == %s" % _UNQ1, when=["str,default"],
                note="a str default is the assigned text, minus at most one pair of matching quotes"),
         Clause("PA-val-str-zero", "result.value.value == ''", when=["str,nodefault"]),
+        Clause("PA-val-quoting-str", "result.value.value == %s" % _UNQ1, when=["Optional[str],str"],
+               note="C02 / C06: a str default under a type that needs quoting is the assigned text - the empty string included"),
+        Clause("PA-val-quoting-scalar", "result.value.value == old_param[1]['default']", when=["Optional[str],int", "Optional[str],bool"],
+               note="C06: a falsy non-str default (0, False) under a type that mentions str is still the assigned value, not None"),
         Clause("PA-frame", "('doc' in param[1]) == False", note="no prose is invented"),
     ],
     canaries=["result.value.value == 0"],
@@ -248,7 +256,7 @@ def _u_mod(body):
 
 _AA_MODULES = {
     # name -> (module, {path expression: expected _location}, [path expressions that must NOT be located at a one-name address of a definition])
-    "class+function": (_u_mod([_u_cls("A", [_u_ann("x"), _u_fn("m", ["self", "p"])]), _u_fn("g", ["q"], ["k"]), _u_assign("T"), _u_fn("h", ["s", "cl"])]),
+    "class+function": (_u_mod([_u_cls("A", [_u_ann("x"), _u_fn("m", ["self", "p"])]), _u_fn("g", ["q"], ["k"]), _u_assign("T"), _u_fn("h", ["s", "cl"]), _u_cls("K", [_u_fn("make", ["cls", "r"])])]),
                        {"node": [], "node.body[0]": ["A"], "node.body[0].body[0]": ["A", "x"], "node.body[0].body[1]": ["A", "m"],
                         "node.body[0].body[1].args.args[1]": ["A", "m", "p"], "node.body[1]": ["g"], "node.body[1].args.args[0]": ["g", "q"],
                         "node.body[1].args.kwonlyargs[0]": ["g", "k"], "node.body[2]": ["T"]}, []),
@@ -273,7 +281,8 @@ def _aa_clauses():
             out.append(Clause("AA-%s-const%d" % (k, i), "(hasattr(%s, '_location') and len(%s._location) == 1) == False" % (pth, pth), when=[k],
                               note="C11 / C15: a string constant is never located at the one-name address of a definition that happens to have its text as name"))
     for pth, idx in (("node.body[0].body[1].args.args[0]", -1), ("node.body[0].body[1].args.args[1]", 0), ("node.body[1].args.args[0]", 0),
-                     ("node.body[1].args.kwonlyargs[0]", 0), ("node.body[3].args.args[0]", 0), ("node.body[3].args.args[1]", 1)):
+                     ("node.body[1].args.kwonlyargs[0]", 0), ("node.body[3].args.args[0]", 0), ("node.body[3].args.args[1]", 1),
+                     ("node.body[4].body[0].args.args[0]", -1), ("node.body[4].body[0].args.args[1]", 0)):
         out.append(Clause("AA-idx-%s" % pth.replace("node.", "").replace(".", "_"), "%s._idx == %d" % (pth, idx), when=["class+function"],
                           note="C14 / C15: an argument's index counts from 0, not counting a receiver that is named exactly self or cls"))
     return out
@@ -456,8 +465,9 @@ _REPL_ANN = ("node", "ast.AnnAssign", {"target": ("node", "ast.Name", {"id": ("l
 _REPL_CLS = _u_cls("A", [_u_ann("fresh")])
 _RAL_MODULES = {
     # name -> (module, search, replacement, path of the addressed node | None, paths of nodes that must stay structurally the same)
-    "class-attr": (_u_mod([_u_cls("A", [_u_ann("x"), _u_ann("y")]), _u_cls("B", [_u_ann("x")]), _u_assign("T")]), ["A", "x"], _REPL_ANN,
-                   "result[0].body[0].body[0]", ["result[0].body[0].body[1]", "result[0].body[1]", "result[0].body[2]"], ["module.body[0].body[1]", "module.body[1]", "module.body[2]"]),
+    "class-attr": (_u_mod([_u_assign("x"), _u_cls("A", [_u_ann("x"), _u_ann("y")]), _u_cls("B", [_u_ann("x")]), _u_assign("T")]), ["A", "x"], _REPL_ANN,
+                   "result[0].body[1].body[0]", ["result[0].body[0]", "result[0].body[1].body[1]", "result[0].body[2]", "result[0].body[3]"],
+                   ["module.body[0]", "module.body[1].body[1]", "module.body[2]", "module.body[3]"]),
     "class": (_u_mod([_u_doc("A"), _u_cls("E", [_u_doc("A")]), _u_cls("A", [_u_ann("x")]), _u_fn("g", ["q"])]), ["A"], _REPL_CLS,
               "result[0].body[2]", ["result[0].body[0]", "result[0].body[1]", "result[0].body[3]"], ["module.body[0]", "module.body[1]", "module.body[3]"]),
     "absent": (_u_mod([_u_cls("A", [_u_ann("x")]), _u_assign("T")]), ["A", "nope"], _REPL_ANN, None, ["result[0].body[0]", "result[0].body[1]"], ["module.body[0]", "module.body[1]"]),
@@ -483,7 +493,7 @@ replace_at_location = Contract(
     "vf.contracts.laws:replace_at_location",
     properties=["C15", "C11", "C14", "C09"],
     note="C15 / C11, deductively: annotate_ancestry then RewriteAtQuery(...).visit (both real, inlined, with NodeTransformer's traversal modelled as in ast.py) on "
-         "three module shapes: an attribute whose simple name also occurs in another class, a class that is preceded by string constants equal to its name "
+         "three module shapes: an attribute whose simple name also occurs in another class and as a module-level assignment before it, a class that is preceded by string constants equal to its name "
          "(a docstring-like statement and a sibling's docstring) and followed by a def, and an absent path",
     cases=[Case(k, {"module": m, "search": ("list", [("lit", x) for x in srch]), "replacement": repl}) for k, (m, srch, repl, _, _, _) in _RAL_MODULES.items()],
     ensures=_ral_clauses(),
